@@ -486,24 +486,32 @@ def rule_quote_regexes(ctx, rule):
     ctx.rule(rule, "escape-preserving quoting: the splitter's group language is exactly %HH; a piece is yielded verbatim only under a regex test whose language is inside %HH (so everything that is not a valid escape goes through urllib.parse.quote); urllib's emitted escapes %[0-9A-F]{2} are recognised, so safely_quote is a no-op on its own output")
     repo = ctx.repo
     q = repo.mod("quote")
-    split_re = repo.const(q, "QUOTED_SPLIT_RE")
-    ctx.rx("ural.quote.QUOTED_SPLIT_RE")
-    if not isinstance(split_re, Regex):
-        raise AnalysisError("quote.QUOTED_SPLIT_RE is not a compiled regex")
-    site = q.site(repo.const_node(q, "QUOTED_SPLIT_RE"))
     qcells = _safely_quote_cells(repo)
     try:
-        A = Algebra()
-        s = A.regex(split_re.pattern, split_re.flags, "fullmatch", "QUOTED_SPLIT_RE")
-        ref = A.regex(r"%[0-9A-Fa-f]{2}", 0, "fullmatch", "ref")
-        w = A.equiv(s, ref)
-        ctx.ob(rule, "QUOTED_SPLIT_RE=escapes", w is None, "QUOTED_SPLIT_RE does not match exactly the %%HH escapes (%s: %r)" % (w or ("", "")), site, witness=w and w[1])
-    except Unsupported as e:
-        ctx.undecided(rule, "QUOTED_SPLIT_RE: %s" % e)
-    import re._parser as sp
-    tree = sp.parse(split_re.pattern, split_re.flags)
-    ctx.ob(rule, "splitter-captures", tree.state.groups == 2 and len(tree) == 1,
-           "QUOTED_SPLIT_RE must consist of exactly one capturing group (re.split keeps captured separators only)", site)
+        split_re = repo.const(q, "QUOTED_SPLIT_RE")
+    except (AnalysisError, Unknown):
+        split_re = None
+    if split_re is not None and not isinstance(split_re, Regex):
+        raise AnalysisError("quote.QUOTED_SPLIT_RE is not a compiled regex")
+    if split_re is None:
+        # the pieces are cut some other way (one scanning pattern, a tokeniser): the splitter obligations have no subject,
+        # the table at the end of this rule decides what they are for
+        ctx.ob(rule, "splitter/replaced", False, "safely_quote_iter does not keep existing escapes and quote everything else", q.site(q.func("safely_quote_iter").node), cells=qcells)
+    else:
+        ctx.rx("ural.quote.QUOTED_SPLIT_RE")
+        site = q.site(repo.const_node(q, "QUOTED_SPLIT_RE"))
+        try:
+            A = Algebra()
+            s = A.regex(split_re.pattern, split_re.flags, "fullmatch", "QUOTED_SPLIT_RE")
+            ref = A.regex(r"%[0-9A-Fa-f]{2}", 0, "fullmatch", "ref")
+            w = A.equiv(s, ref)
+            ctx.ob(rule, "QUOTED_SPLIT_RE=escapes", w is None, "QUOTED_SPLIT_RE does not match exactly the %%HH escapes (%s: %r)" % (w or ("", "")), site, witness=w and w[1])
+        except Unsupported as e:
+            ctx.undecided(rule, "QUOTED_SPLIT_RE: %s" % e)
+        import re._parser as sp
+        tree = sp.parse(split_re.pattern, split_re.flags)
+        ctx.ob(rule, "splitter-captures", tree.state.groups == 2 and len(tree) == 1,
+               "QUOTED_SPLIT_RE must consist of exactly one capturing group (re.split keeps captured separators only)", site)
     # structure of safely_quote_iter
     ex = P.Extractor(repo, atomic=set())
     ref_fn = q.func("safely_quote_iter")
